@@ -300,13 +300,18 @@ def command_half(ctx, quick, st):
     for ri, r in enumerate(runs):
         n = len(r["kinds"])
         contents = [ctx.rng.choice(fr.CONTENT[k]) for k in r["kinds"]]
+        # in a third of the runs every change of the patch carries a package clause and the files that nothing
+        # matches may belong to another package (they would match but for the clause)
+        pkgpatch = ctx.rng.random() < 0.34
+        if pkgpatch:
+            contents = [fr.OTHERPKG if k == "nomatch" and ctx.rng.random() < 0.7 else c for k, c in zip(r["kinds"], contents)]
         flags = dict(diff=r["mode"] == "diff", print=r["mode"] == "print", skipImports=False, skipGenerated=ctx.rng.random() < 0.5,
                      verbose=ctx.rng.random() < 0.3)
         order = r["order"]
         gk, gc = [r["kinds"][o - 1] for o in order], [contents[o - 1] for o in order]
         ids = dict(group="i%d-g" % ri, again="i%d-a" % ri, solo=["i%d-s%d" % (ri, i) for i in range(n)])
         for sid in (ids["group"], ids["again"]):
-            s = fr.realise(ctx, dict(kinds=gk, flags=flags, fault=dict(f=0, p="none"), contents=gc), sid, ctx.rng)
+            s = fr.realise(ctx, dict(kinds=gk, flags=flags, fault=dict(f=0, p="none"), contents=gc, pkgpatch=pkgpatch), sid, ctx.rng)
             # the order of the arguments is shuffled independently of the file names
             k = len(s["args"]) - (1 if s["meta"]["style"] == "dir" else n)
             tail = s["args"][k:]
@@ -315,7 +320,7 @@ def command_half(ctx, quick, st):
             s["strace"] = False
             scs.append(s)
         for i in range(n):
-            s = fr.realise(ctx, dict(kinds=[r["kinds"][i]], flags=flags, fault=dict(f=0, p="none"), contents=[contents[i]]), ids["solo"][i], ctx.rng)
+            s = fr.realise(ctx, dict(kinds=[r["kinds"][i]], flags=flags, fault=dict(f=0, p="none"), contents=[contents[i]], pkgpatch=pkgpatch), ids["solo"][i], ctx.rng)
             s["strace"] = False
             scs.append(s)
         plan.append((r, ids, order, flags, contents))
